@@ -238,6 +238,32 @@ def run(ck):
         ck.ob("C10-R6", "removeRoute/return#%d-own-emptiness" % i, not missing, e.loc, rr,
               "mentions %s" % members if not missing else "the returned removability ignores %s: a node that still holds it would be erased by its parent" % missing)
 
+
+    # ---------------- R9: the child that was asked is the child that is erased ----------------
+    ck.rule("C10-R9", "dataflow identity (look-up key = erase key)",
+            "in SegmentTreeNode::removeRoute the child node whose removeRoute answered 'nothing left' is the one erased from its collection: "
+            "erase() is given the iterator of that look-up or the very key variable the look-up used (an optional segment is filed without "
+            "its '?': erased under another spelling, the empty child stays behind and shadows the parent's own route)", 1)
+    LOOKUP = ("::at", "::find", "::count", "::operator[]", "::equal_range", "::contains")
+    n9 = 0
+    for er in [e for e in rr.events("call") if (e.get("callee") or "").endswith("::erase") and "map<" in (e.get("callee") or "")]:
+        rv = (er.get("recv") or {})
+        looks = [e for e in rr.events("call") if (e.get("callee") or "").endswith(LOOKUP) and "map<" in (e.get("callee") or "") and
+                 (e.get("recv") or {}).get("t") == rv.get("t") and e.get("args") and any(x is er for x in cfg.events_after(rr, e))]
+        if not looks or not er.get("args"):
+            continue
+        n9 += 1
+        a = er["args"][0]
+        keyvars = {(l_["args"][0].get("v"), l_["args"][0].get("vd")) for l_ in looks if l_["args"][0].get("v")}
+        # an iterator obtained from one of the look-ups on the same collection
+        itvars = {d_["var"] for d_ in rr.events("decl") if d_.get("var") and any((d_.get("icall") or "") == l_.get("callee") and d_.get("l") == l_.get("l") for l_ in looks)}
+        same = (a.get("v"), a.get("vd")) in keyvars or (a.get("v") in itvars) or (a.get("root") in itvars)
+        ck.ob("C10-R9", "removeRoute/erase@%s" % rv.get("t"), same, er.loc, rr,
+              "erase(%s) uses the key / iterator of the look-up" % a.get("t") if same else
+              "erase(%s) at line %s does not use what the look-up on %s used (%s): when the two spellings differ (optional segment: with and "
+              "without '?') the emptied child is never erased" % (a.get("t"), er.get("l"), rv.get("t"), sorted(k for k, _ in keyvars) or "a computed key"))
+    ck.require(n9 >= 1, "removeRoute: no erase of a child after a look-up found")
+
     # ---------------- R3 ----------------
     g = lib.single(prog, R + "Router::route")
 
